@@ -76,6 +76,9 @@ def run(ctx):
             bad("format 4 PAN field layout", {"fn": "pan_field_4", "args": [pan4]}, exp.hex(), repr(g))
         lines.append(core.model_line("encode_pan_field_iso_4", (pan4,)))
         expect.append("OK " + core.show(exp))
+    from harness.props.pinblock_common import after_rejected_calls
+    dist["calls_after_rejected_calls"] = after_rejected_calls(rng, viol)
+    evals += dist["calls_after_rejected_calls"]
     bv, bcalls = biased_entropy(ctx, "layout")
     viol += bv
     evals += bcalls
